@@ -1,4 +1,5 @@
 import Mieru.Proofs.LowEntropyCanon
+import Mieru.Proofs.PdepLoop
 /-!
 # C17 — low-entropy encoding is lossless, canonical, and identical on every CPU path
 
@@ -10,8 +11,9 @@ portable and BMI2) on every check.
 Proved here, for ALL bodies, modes, masks, rotations and both polarities:
 * length law, round trip, canonicity (the decoder accepts only the encoder's output), rejection of
   invalid parameters and inconsistent lengths, the rotation law `((i mod 64)·R) mod 64 = (i·R) mod 64`.
-Not proved (partial): that the portable Go loop (`mask & -mask` / `mask &= mask-1`) equals the
-bit-by-bit PDEP/PEXT spec, and the BMI2 instructions — both are differential only (see DESIGN.md).
+Also proved: the portable Go loop (`mask & -mask` / `mask &= mask-1`), transcribed on 64-bit naturals,
+equals the bit-by-bit PDEP/PEXT spec for ALL 2^128 pairs (`pdepGo_eq_spec`, `pextGo_eq_spec`).
+Not proved (partial): the BMI2 instructions are hardware — differential only (see DESIGN.md).
 -/
 namespace Mieru.C17
 open Mieru Mieru.LowEntropy
@@ -214,6 +216,23 @@ theorem le_meta_validation_sound (proto mode half rot pl el : Nat)
     | none => rw [hel'] at hl; simp at hl
     | some el' => rw [hel'] at hl; simp at hl; rw [hl]
 
+/-! ## The portable Go loops compute the bit-by-bit PDEP / PEXT specification
+
+(This closes the "not proved (partial)" item of the header for the portable path: `pdepGo` / `pextGo`
+are the line-by-line transcription of the loops of pkg/mathext/bit.go — `mask & -mask`,
+`mask &= mask - 1`, `srcBit <<= 1` on 64-bit words — and `pdep` / `pext` the bit-list specification.
+Loop invariants in `Mieru.Proofs.PdepLoop`.  The BMI2 instructions remain differential only.) -/
+
+/-- the portable PDEP loop equals the specification on all 64-bit words -/
+theorem pdepGo_eq_spec (x mask : Nat) (hx : x < 2^64) (hm : mask < 2^64) : pdepGo x mask = pdep x mask :=
+  have _ := hx
+  pdepGo_eq_pdep x mask hm
+
+/-- the portable PEXT loop equals the specification on all 64-bit words -/
+theorem pextGo_eq_spec (x mask : Nat) (hx : x < 2^64) (hm : mask < 2^64) : pextGo x mask = pext x mask :=
+  have _ := hx
+  pextGo_eq_pext x mask hm
+
 /-! ## Non-vacuity: the document's worked example, both polarities, and a rotated multi-chunk body -/
 example : encode [0x12, 0x34, 0x56, 0x78] 1 0x0f0f0f0f 0 false = some [1, 2, 3, 4, 5, 6, 7, 8] := by decide
 example : encode [0x12, 0x34, 0x56, 0x78] 1 0x0f0f0f0f 0 true
@@ -223,5 +242,24 @@ example : validParams 1 0x0f0f0f0f 0 = true ∧ validParams 4 0x7ffeeffe 240 = t
 example : metaValid 10 1 0x0f0f0f0f 3 16 5 = true := by decide
 /-- mixed padding is rejected -/
 example : decode [0x01, 0x02, 0x03, 0x04, 0x05, 0x06, 0x07, 0xf8] 4 1 0x0f0f0f0f 0 = none := by decide
+
+/-- PDEP / PEXT: loop transcription and specification on concrete 64-bit words -/
+example : pdepGo 0x12345678 0x0f0f0f0f0f0f0f0f = 0x0102030405060708 ∧
+    pdep 0x12345678 0x0f0f0f0f0f0f0f0f = 0x0102030405060708 := by decide
+example : pextGo 0x0102030405060708 0x0f0f0f0f0f0f0f0f = 0x12345678 ∧
+    pext 0x0102030405060708 0x0f0f0f0f0f0f0f0f = 0x12345678 := by decide
+set_option maxRecDepth 4096 in
+example : pdepGo 0xffffffffffffffff 0xffffffffffffffff = 0xffffffffffffffff ∧
+    pdep 0xffffffffffffffff 0xffffffffffffffff = 0xffffffffffffffff ∧
+    pextGo 0xffffffffffffffff 0xffffffffffffffff = 0xffffffffffffffff ∧
+    pext 0xffffffffffffffff 0xffffffffffffffff = 0xffffffffffffffff := by decide
+example : pdepGo 0xdeadbeefcafef00d 0x8000000000000001 = 1 ∧
+    pdep 0xdeadbeefcafef00d 0x8000000000000001 = 1 ∧
+    pextGo 0xdeadbeefcafef00d 0x8000000000000001 = 3 ∧
+    pext 0xdeadbeefcafef00d 0x8000000000000001 = 3 := by decide
+example : pdepGo 0xdeadbeefcafef00d 0 = 0 ∧ pdep 0xdeadbeefcafef00d 0 = 0 ∧
+    pextGo 0xdeadbeefcafef00d 0 = 0 ∧ pext 0xdeadbeefcafef00d 0 = 0 := by decide
+example : pdepGo 0xdeadbeefcafef00d 0xf0f0aa5533cc0ff0 = pdep 0xdeadbeefcafef00d 0xf0f0aa5533cc0ff0 ∧
+    pextGo 0xdeadbeefcafef00d 0xf0f0aa5533cc0ff0 = pext 0xdeadbeefcafef00d 0xf0f0aa5533cc0ff0 := by decide
 
 end Mieru.C17
